@@ -264,6 +264,22 @@ def apply_rules(ck: Checker, rule='C01.APPLY'):
     ck.check(ok, rule, m, seeds[0] if seeds else fn, 'evaluate_circuit starts from the requested outputs (all outputs by default), skipping those that are inputs',
              'seeding of the stack changed', construct='Circuit.evaluate_circuit seeding')
 
+    # no exit bypasses the evaluation loop (must-pass-through): an early return would hand out unevaluated gates
+    from ..core import walk_no_nested
+    for q, is_loop in (('Circuit.evaluate_circuit', lambda n: isinstance(n, ast.While)), ('Circuit.evaluate_full_circuit', lambda n: isinstance(n, ast.For) and 'top_sort' in norm(n.iter))):
+        f = m.func(q)
+        loops = [n for n in f.body if is_loop(n)]
+        rets = [n for n in walk_no_nested(f) if isinstance(n, ast.Return)]
+        early = [r for r in rets if not loops or r.lineno < loops[-1].end_lineno]
+        # an early exit decided by the circuit's own structure alone (e.g. "no gates") is not this rule's business;
+        # one that depends on the assignment / requested outputs (or on nothing) skips work the caller asked for
+        from ..guards import dominating_tests
+        params = {a.arg for a in f.args.args + f.args.kwonlyargs} - {'self'}
+        early = [r for r in early if not dominating_tests(m, f, r) or any(isinstance(x, ast.Name) and x.id in params for t, _ in dominating_tests(m, f, r) for x in ast.walk(t))]
+        ck.check(loops and rets and not early, rule, m, early[0] if early else f, f'{q.split(".")[1]}: every exit lies behind the evaluation loop',
+                 (f'`{norm(m.enclosing_stmt(early[0]))[:120]}` returns before the gates were evaluated: constants and zero-input circuits come back Undefined under a total assignment' if early else 'evaluation loop or return not found'),
+                 construct=f'{q} exits behind the evaluation loop')
+
     # enumeration order in every whole-function query of Circuit
     n_enum = 0
     cls = m.cls('Circuit')
